@@ -71,4 +71,24 @@ pub fn vx_iter_fold<I: Iterator, B, F: FnMut(B, I::Item) -> B>(it: I, init: B, f
         && (forall|k: int| 0 <= k < it.remaining().len() ==> call_ensures(f, (#[trigger] accs[k], it.remaining()[k]), accs[k + 1]))
 { it.fold(init, f) }
 
+// map: asked once per element, answers kept in order
+#[verifier::external_body]
+pub fn vx_iter_map_eager<I: Iterator, B, F: FnMut(I::Item) -> B>(it: I, f: F) -> (r: std::vec::IntoIter<B>)
+    requires forall|x: I::Item| call_requires(f, (x,))
+    ensures
+        it.obeys_prophetic_iter_laws() ==> r.remaining().len() == it.remaining().len()
+            && (forall|k: int| 0 <= k < it.remaining().len() ==> call_ensures(f, (#[trigger] it.remaining()[k],), r.remaining()[k])),
+        r.obeys_prophetic_iter_laws(), r.decrease() is Some,
+{ it.map(f).collect::<Vec<_>>().into_iter() }
+
+// collect::<Result<Vec<T>, E>>(): the first error, or all the values
+pub open spec fn all_ok<T, E>(s: Seq<core::result::Result<T, E>>) -> bool { forall|k: int| 0 <= k < s.len() ==> #[trigger] s[k] is Ok }
+pub open spec fn oks<T, E>(s: Seq<core::result::Result<T, E>>) -> Seq<T> { Seq::new(s.len(), |k: int| s[k]->Ok_0) }
+#[verifier::external_body]
+pub fn vx_collect_results<I: Iterator<Item = core::result::Result<T, E>>, T, E>(it: I) -> (r: core::result::Result<Vec<T>, E>)
+    ensures
+        it.obeys_prophetic_iter_laws() ==> ((r is Ok) == all_ok(it.remaining())),
+        it.obeys_prophetic_iter_laws() && r is Ok ==> r->Ok_0@ == oks(it.remaining()),
+{ it.collect() }
+
 } // verus!
